@@ -698,44 +698,64 @@ func (j *judge) txSchedule(tx *TxRec, req *ReqRec, reqTicks []int64, c core.Chan
 	}
 }
 
-// scheduledPromise judges a promise inserted by the schedule cycle (S2/S3).
+// scheduledPromise judges a promise inserted by the schedule cycle (S2/S3). The basis is the schedule
+// row the cycle read (pre-state of the instance's ReadSchedules transaction).
 func (j *judge) scheduledPromise(tx *TxRec, c core.Change, pre, post core.Snapshot) {
 	a := c.After
 	tags := a.JSONMap("tags")
 	sid := tags["resonate:schedule"]
-	sb, had := pre["schedules"][sid]
 	if sid == "" || tags["resonate:invocation"] != "true" {
 		j.add("C10", "S2", "", "scheduled promise %s lacks the schedule marker tags: %v", c.Key, tags)
 		return
 	}
-	if !had {
-		// the schedule vanished between the cycle's read and this step (delete race): allowed only for
-		// an occurrence that was due, i.e. not later than the deletion; the occurrence time is in the id
-		// by template only, so it is checked through the timeout below when the row is known
+	var read *TxRec
+	for _, t := range j.txsBy[tx.ReqId] {
+		if len(t.Cmds) == 1 && t.Cmds[0].Kind == t_aio.ReadSchedules {
+			read = t
+			break
+		}
+	}
+	if read == nil {
+		j.add("C10", "S3", "", "promise %s created by %s which never read the schedules", c.Key, tx.ReqId)
 		return
 	}
-	old := sb.I("next_run_time")
-	if pid := ExpandTemplate(sb.S("promise_id"), sid, old); pid != c.Key {
-		// may be a late write for an occurrence the schedule has already advanced past
-		sa := post["schedules"][sid]
-		j.add("C10", "S3", "", "promise %s created by the schedule cycle but schedule %s stands at occurrence %d (id %q) (tx#%d) post=%s", c.Key, sid, old-Base, pid, tx.Seq, core.RowString(sa))
+	sr, ok := read.Pre["schedules"][sid]
+	if !ok {
+		j.add("C10", "S3", "", "promise %s created for schedule %s which did not exist when the cycle %s read the schedules", c.Key, sid, tx.ReqId)
 		return
 	}
-	sa, still := post["schedules"][sid]
-	if still && sa.I("next_run_time") == old {
-		j.add("C10", "S3", "", "promise %s of occurrence %d created without advancing schedule %s in the same step (tx#%d)", c.Key, old-Base, sid, tx.Seq)
+	old := sr.I("next_run_time")
+	if read.Tick < old {
+		j.add("C10", "S1", "", "cycle %s fired occurrence %d of schedule %s at tick %d, before it was reached", tx.ReqId, old-Base, sid, read.Tick-Base)
+	}
+	if pid := ExpandTemplate(sr.S("promise_id"), sid, old); pid != c.Key {
+		key := ""
+		if strings.ContainsAny(pid, "<>&'\"+") {
+			key = "C20:html-escaped-schedule-id"
+		}
+		j.add("C10", "S2", key, "occurrence %d of schedule %s must create promise %q, created %q", old-Base, sid, pid, c.Key)
 	}
 	var hdr, shdr map[string]string
 	_ = json.Unmarshal([]byte(a.S("param_headers")), &hdr)
-	_ = json.Unmarshal([]byte(sb.S("promise_param_headers")), &shdr)
-	wantTags := sb.JSONMap("promise_tags")
+	_ = json.Unmarshal([]byte(sr.S("promise_param_headers")), &shdr)
+	wantTags := sr.JSONMap("promise_tags")
 	wantTags["resonate:schedule"] = sid
 	wantTags["resonate:invocation"] = "true"
-	if a.I("timeout") != old+sb.I("promise_timeout") || a.S("param_data") != sb.S("promise_param_data") || !sameMap(hdr, shdr) || !sameMap(tags, wantTags) {
-		j.add("C10", "S2", "", "promise %s of schedule %s occurrence %d stored as %s, want timeout %d, the configured parameter and tags %v", c.Key, sid, old-Base, core.RowString(a), old+sb.I("promise_timeout")-Base, wantTags)
+	if a.I("timeout") != old+sr.I("promise_timeout") || a.S("param_data") != sr.S("promise_param_data") || !sameMap(hdr, shdr) || !sameMap(tags, wantTags) {
+		j.add("C10", "S2", "", "promise %s of schedule %s occurrence %d stored as %s, want timeout %d, the configured parameter and tags %v", c.Key, sid, old-Base, core.RowString(a), old+sr.I("promise_timeout")-Base, wantTags)
 	}
-	if tx.Tick < old {
-		j.add("C10", "S1", "", "promise %s created at tick %d before its occurrence %d", c.Key, tx.Tick-Base, old-Base)
+	cur, has := pre["schedules"][sid]
+	if !has || cur.I("created_on") != sr.I("created_on") || cur.I("sort_id") != sr.I("sort_id") {
+		// the schedule was deleted (and possibly re-created) after the cycle read it: the occurrence was
+		// due before the deletion, so its promise may still be created; nothing else to demand
+		return
+	}
+	if cur.I("next_run_time") != old {
+		j.add("C10", "S1", "", "occurrence %d of schedule %s fired again: promise %s created although the schedule had already advanced to %d (tx#%d)", old-Base, sid, c.Key, cur.I("next_run_time")-Base, tx.Seq)
+		return
+	}
+	if sa, still := post["schedules"][sid]; still && sa.I("next_run_time") == old {
+		j.add("C10", "S3", "", "promise %s of occurrence %d created without advancing schedule %s in the same step (tx#%d)", c.Key, old-Base, sid, tx.Seq)
 	}
 }
 
